@@ -139,6 +139,9 @@ type Engine struct {
 	MaxDepth      int
 	ShardI, ShardN int
 	sharedPhase   bool
+	WantWitnesses int
+	Witnesses     []*Cex
+	pathReach     []string
 }
 
 type pathAbort struct{}
@@ -581,6 +584,7 @@ func (e *Engine) resetPath() {
 	e.pathAssertFailed = false
 	e.mapOrderPerm = false
 	e.afterCrash = nil
+	e.pathReach = e.pathReach[:0]
 }
 
 func (e *Engine) runPath(entry *ssa.Function, prefix []decision) {
@@ -629,6 +633,18 @@ func (e *Engine) runPath(entry *ssa.Function, prefix []decision) {
 			"entry": e.EntryName, "path": e.Paths, "decisions": len(e.trace), "pc_terms": len(e.pc),
 			"inputs": len(e.inputs), "steps": e.steps, "outcome": e.outcome.Kind, "events": append([]string(nil), e.events...),
 		})
+	}
+	if e.outcome.Kind == "ok" && !e.pathAssertFailed && len(e.Witnesses) < e.WantWitnesses && len(e.inputs) > 0 &&
+		(e.Paths <= 2 || e.Paths%7 == 0) {
+		if r, m := e.check(nil, e.inputTerms()); r == smt.Sat {
+			w := &Cex{Label: "", Entry: e.EntryName, Params: e.Params}
+			for _, in := range e.inputs {
+				w.Inputs = append(w.Inputs, CexInput{Key: in.key, Idx: in.idx, Kind: in.kind, Val: m[in.t.Name], Name: in.t.Name})
+			}
+			w.Events = append([]string(nil), e.events...)
+			w.Notes = map[string]string{"reach": strings.Join(e.pathReach, ",")}
+			e.Witnesses = append(e.Witnesses, w)
+		}
 	}
 	e.rollback()
 }
